@@ -71,3 +71,20 @@ func (c *Controller) ZZRegisteredHosts() string {
 	}
 	return s
 }
+
+// ZZAttachWitness attaches the spare address of the pool as a witness (quorum) replica
+// the way POST /v1/quorumreplicas does, fault-free; false when the controller refuses.
+func ZZAttachWitness(c *Controller) bool {
+	e := zzLastEnv
+	zzmodel.NoFaults = true
+	nf := e.f.noFail
+	e.f.noFail = true
+	err := c.AddQuorumReplica(zzAddrs[e.rf])
+	zzmodel.NoFaults = false
+	e.f.noFail = nf
+	return err == nil
+}
+
+// ZZSymbolicControllerLite: membership, modes and checkpoint symbolic; every replica
+// holds the same two-element chain.
+func ZZSymbolicControllerLite(rf int) *Controller { return zzSymbolicEnvReg(rf, false).c }
